@@ -54,13 +54,22 @@ func connectCallback(n *NSQD, hostname string) func(*lookupPeer) {
 		var commands []*nsq.Command
 		n.RLock()
 		for _, topic := range n.topicMap {
+			// a topic/channel that is being deleted stays in its map until the very end of
+			// the deletion; its UNREGISTER may already have been sent, so do not re-register it
+			if topic.Exiting() {
+				continue
+			}
 			topic.RLock()
-			if len(topic.channelMap) == 0 {
-				commands = append(commands, nsq.Register(topic.name, ""))
-			} else {
-				for _, channel := range topic.channelMap {
-					commands = append(commands, nsq.Register(channel.topicName, channel.name))
+			registered := false
+			for _, channel := range topic.channelMap {
+				if channel.Exiting() {
+					continue
 				}
+				commands = append(commands, nsq.Register(channel.topicName, channel.name))
+				registered = true
+			}
+			if !registered {
+				commands = append(commands, nsq.Register(topic.name, ""))
 			}
 			topic.RUnlock()
 		}
